@@ -10,13 +10,13 @@ package biscuit
 // root key identifier (C16)
 
 //@ func (b *Biscuit) RootKeyID() (res *uint32)
-//@ serves C16 C10
+//@ serves C10 C16 C19
 //@ requires b != nil && b.container != nil
 //@ modifies nothing
 //@ ensures res == b.container.RootKeyId
 
 //@ func WithRootPublicKeys$1(id *uint32) (key ed25519.PublicKey, err error)
-//@ serves C16
+//@ serves C16 C19
 //@ modifies nothing
 //@ ensures default_key: id == nil && defaultKey != nil ==> err == nil && key == *defaultKey
 //@ ensures no_default: id == nil && defaultKey == nil ==> err == ErrNoPublicKeyAvailable && key == nil
@@ -24,7 +24,7 @@ package biscuit
 //@ ensures unknown_id: id != nil && !has(keysByID, *id) ==> err == ErrNoPublicKeyAvailable && key == nil
 
 //@ func WithSingularRootPublicKey$1(id *uint32) (k ed25519.PublicKey, err error)
-//@ serves C16
+//@ serves C16 C19
 //@ modifies nothing
 //@ ensures err == nil && k == key
 
@@ -32,7 +32,7 @@ package biscuit
 // token construction (C01 C16 C20)
 
 //@ func newBiscuit(root ed25519.PrivateKey, baseSymbols *datalog.SymbolTable, authority *Block, opts []biscuitOption) (res *Biscuit, err error)
-//@ serves C01 C10 C16 C20
+//@ serves C01 C10 C16 C19 C20
 //@ requires len(root) == 64 && baseSymbols != nil && blockWF(authority)
 //@ requires forall j int :: { opts[j] } 0 <= j && j < len(opts) ==> opts[j] != nil
 //@ modifies nothing
@@ -56,6 +56,7 @@ package biscuit
 //@ loop 0 invariant content: *authority == *b.authority && (forall j int :: { blocks[j] } 0 <= j && j < #i ==> *blocks[j] == *b.blocks[j])
 //@ ensures no_token_on_error: err != nil ==> res == nil
 //@ ensures entropy_failure_is_reported[C20]: !entropyOK(rng) ==> err != nil
+//@ ensures overlap_refused[C07 C08]: (exists j int, k int :: 0 <= j && j < len(*b.symbols) && 0 <= k && k < len(*block.symbols) && (*b.symbols)[j] == (*block.symbols)[k]) ==> err != nil
 //@ ensures refuses_sealed: !hasNextSecret(b.container.Proof) ==> err != nil
 //@ ensures wf_blocks: err == nil ==> res != nil && wfBlock(res.authority) && res.symbols != nil && len(res.blocks) == len(b.blocks) + 1 && (forall i int :: { res.blocks[i] } 0 <= i && i < len(res.blocks) ==> wfBlock(res.blocks[i]))
 //@ ensures wf_envelope: err == nil ==> wfContainer(res.container) && len(res.blocks) == len(res.container.Blocks)
@@ -89,7 +90,7 @@ package biscuit
 // converters, token -> wire (C07 C10)
 
 //@ func tokenIDToProtoIDV2(input datalog.Term) (res *pb.TermV2, err error)
-//@ serves C07 C10
+//@ serves C07 C10 C19
 //@ requires termWF(input)
 //@ modifies nothing
 //@ loop 0 invariant fresh(arr(protoSet)) && len(protoSet) == #i
@@ -106,7 +107,7 @@ package biscuit
 //@ ensures empty_set_refused[C07]: input is datalog.Set && len(input.(datalog.Set)) == 0 ==> err != nil
 
 //@ func tokenPredicateToProtoPredicateV2(input datalog.Predicate) (res *pb.PredicateV2, err error)
-//@ serves C07 C10
+//@ serves C07 C10 C19
 //@ requires predWF(input)
 //@ modifies nothing
 //@ loop 0 invariant true
@@ -114,14 +115,14 @@ package biscuit
 //@ ensures err != nil ==> res == nil
 
 //@ func tokenFactToProtoFactV2(input datalog.Fact) (res *pb.FactV2, err error)
-//@ serves C07 C10
+//@ serves C07 C10 C19
 //@ requires predWF(input.Predicate)
 //@ modifies nothing
 //@ ensures err == nil ==> res != nil && fresh(res)
 //@ ensures err != nil ==> res == nil
 
 //@ func tokenExprUnaryToProtoExprUnary(op datalog.UnaryOp) (res *pb.OpUnary, err error)
-//@ serves C07 C10
+//@ serves C07 C10 C19
 //@ requires op.UnaryOpFunc != nil
 //@ modifies nothing
 //@ ensures err == nil ==> res != nil && fresh(res) && res.Kind != nil
@@ -131,7 +132,7 @@ package biscuit
 //@ ensures row_length[C07]: op.UnaryOpFunc is datalog.Length ==> err == nil && *res.Kind == pb.OpUnary_Length
 
 //@ func tokenExprBinaryToProtoExprBinary(op datalog.BinaryOp) (res *pb.OpBinary, err error)
-//@ serves C07 C10
+//@ serves C07 C10 C19
 //@ requires op.BinaryOpFunc != nil
 //@ modifies nothing
 //@ ensures err == nil ==> res != nil && fresh(res) && res.Kind != nil
@@ -155,7 +156,7 @@ package biscuit
 //@ ensures row_union[C07]: op.BinaryOpFunc is datalog.Union ==> err == nil && *res.Kind == pb.OpBinary_Union
 
 //@ func tokenExpressionToProtoExpressionV2(input datalog.Expression) (res *pb.ExpressionV2, err error)
-//@ serves C07 C10
+//@ serves C07 C10 C19
 //@ requires exprWF(input)
 //@ modifies nothing
 //@ loop 0 invariant true
@@ -163,7 +164,7 @@ package biscuit
 //@ ensures err != nil ==> res == nil
 
 //@ func tokenRuleToProtoRuleV2(input datalog.Rule) (res *pb.RuleV2, err error)
-//@ serves C07 C10
+//@ serves C07 C10 C19
 //@ requires ruleWF(input)
 //@ modifies nothing
 //@ loop 0 invariant true
@@ -172,7 +173,7 @@ package biscuit
 //@ ensures err != nil ==> res == nil
 
 //@ func tokenCheckToProtoCheckV2(input datalog.Check) (res *pb.CheckV2, err error)
-//@ serves C07 C10
+//@ serves C07 C10 C19
 //@ requires checkWF(input)
 //@ modifies nothing
 //@ loop 0 invariant true
@@ -180,7 +181,7 @@ package biscuit
 //@ ensures err != nil ==> res == nil
 
 //@ func tokenBlockToProtoBlock(input *Block) (res *pb.Block, err error)
-//@ serves C07 C10
+//@ serves C07 C10 C19
 //@ requires blockWF(input)
 //@ modifies nothing
 //@ loop 0 invariant true
@@ -209,7 +210,7 @@ package biscuit
 //@ ensures ready: err == nil && contentWF(b) ==> authInv(res.(*authorizer))
 
 //@ func NewVerifier(b *Biscuit, opts []AuthorizerOption) (res Authorizer, err error)
-//@ serves C01 C10 C11 C13
+//@ serves C01 C10 C11 C13 C19
 //@ requires forall j int :: { opts[j] } 0 <= j && j < len(opts) ==> opts[j] != nil
 //@ modifies nothing
 //@ loop 0 invariant a != nil && fresh(a) && a.baseSymbols != nil && a.baseWorld != nil && a.baseWorld.facts != nil && a.biscuit == b
@@ -225,7 +226,7 @@ package biscuit
 // Options are functions over the unexported *authorizer: only this package can
 // define them, and each one is verified against this contract.
 //@ functype AuthorizerOption(w *authorizer)
-//@ serves C01 C10 C11 C13
+//@ serves C01 C10 C11 C13 C19
 //@ requires w != nil && w.baseSymbols != nil
 //@ modifies w.baseWorld
 //@ touches cell:datalog.World cell:datalog.FactSet arr:[]datalog.Rule arr:datalog.FactSet
@@ -233,7 +234,7 @@ package biscuit
 //@ defines w.baseWorld.runLimits == aoApply(self, old(w.baseWorld.runLimits))
 
 //@ func WithWorldOptions$1(a *authorizer)
-//@ serves C10 C11
+//@ serves C10 C11 C19
 //@ assumes forall j int :: { opts[j] } 0 <= j && j < len(opts) ==> opts[j] != nil
 //@ requires a != nil
 //@ modifies a.baseWorld
@@ -242,7 +243,7 @@ package biscuit
 // converters, wire -> token (C07 C10): total on every decoded message
 
 //@ func protoIDToTokenIDV2(input *pb.TermV2) (res *datalog.Term, err error)
-//@ serves C07 C10
+//@ serves C07 C10 C19
 //@ requires pbTermWF(input)
 //@ modifies nothing
 //@ loop 0 invariant fresh(arr(datalogSet)) && setWF(datalogSet) && (forall j int :: { elts[j] } 0 <= j && j < len(elts) ==> pbTermShallowWF(elts[j]))
@@ -258,7 +259,7 @@ package biscuit
 //@ ensures no_content[C07 C10]: input.Content == nil ==> err != nil
 
 //@ func protoPredicateToTokenPredicateV2(input *pb.PredicateV2) (res *datalog.Predicate, err error)
-//@ serves C07 C10
+//@ serves C07 C10 C19
 //@ requires pbPredWF(input)
 //@ modifies nothing
 //@ loop 0 invariant len(Terms) == len(input.Terms) && fresh(arr(Terms)) && (forall j int :: { Terms[j] } 0 <= j && j < #i ==> termWF(Terms[j]))
@@ -266,14 +267,14 @@ package biscuit
 //@ ensures err != nil ==> res == nil
 
 //@ func protoFactToTokenFactV2(input *pb.FactV2) (res *datalog.Fact, err error)
-//@ serves C07 C10
+//@ serves C07 C10 C19
 //@ requires pbFactWF(input)
 //@ modifies nothing
 //@ ensures err == nil ==> res != nil && fresh(res) && predWF(res.Predicate)
 //@ ensures err != nil ==> res == nil
 
 //@ func protoExprUnaryToTokenExprUnary(op *pb.OpUnary) (res datalog.UnaryOpFunc, err error)
-//@ serves C07 C10
+//@ serves C07 C10 C19
 //@ requires op != nil && op.Kind != nil
 //@ modifies nothing
 //@ ensures (err == nil) == (res != nil)
@@ -283,7 +284,7 @@ package biscuit
 //@ ensures unknown_kind[C07 C10]: *op.Kind != pb.OpUnary_Negate && *op.Kind != pb.OpUnary_Parens && *op.Kind != pb.OpUnary_Length ==> err != nil
 
 //@ func protoExprBinaryToTokenExprBinary(op *pb.OpBinary) (res datalog.BinaryOpFunc, err error)
-//@ serves C07 C10
+//@ serves C07 C10 C19
 //@ requires op != nil && op.Kind != nil
 //@ modifies nothing
 //@ ensures (err == nil) == (res != nil)
@@ -307,7 +308,7 @@ package biscuit
 //@ ensures unknown_kind[C07 C10]: (*op.Kind < 0 || *op.Kind > 16) ==> err != nil
 
 //@ func protoExpressionToTokenExpressionV2(input *pb.ExpressionV2) (res datalog.Expression, err error)
-//@ serves C07 C10
+//@ serves C07 C10 C19
 //@ requires pbExprWF(input)
 //@ modifies nothing
 //@ loop 0 invariant len(expr) == len(input.Ops) && fresh(arr(expr)) && (forall j int :: { expr[j] } 0 <= j && j < #i ==> opWF(expr[j]))
@@ -315,7 +316,7 @@ package biscuit
 //@ ensures err != nil ==> res == nil
 
 //@ func protoRuleToTokenRuleV2(input *pb.RuleV2) (res *datalog.Rule, err error)
-//@ serves C07 C10
+//@ serves C07 C10 C19
 //@ requires pbRuleWF(input)
 //@ modifies nothing
 //@ loop 0 invariant len(body) == len(input.Body) && fresh(arr(body)) && (forall j int :: { body[j] } 0 <= j && j < #i ==> predWF(body[j]))
@@ -324,7 +325,7 @@ package biscuit
 //@ ensures err != nil ==> res == nil
 
 //@ func protoCheckToTokenCheckV2(input *pb.CheckV2) (res *datalog.Check, err error)
-//@ serves C07 C10
+//@ serves C07 C10 C19
 //@ requires pbCheckWF(input)
 //@ modifies nothing
 //@ loop 0 invariant len(queries) == len(input.Queries) && fresh(arr(queries)) && (forall j int :: { queries[j] } 0 <= j && j < #i ==> ruleWF(queries[j]))
@@ -332,7 +333,7 @@ package biscuit
 //@ ensures err != nil ==> res == nil
 
 //@ func protoBlockToTokenBlock(input *pb.Block) (res *Block, err error)
-//@ serves C07 C10
+//@ serves C07 C10 C19
 //@ requires pbBlockWF(input)
 //@ modifies nothing
 //@ loop 0 invariant forall j int :: { facts[j] } 0 <= j && j < #i ==> predWF(facts[j].Predicate)
@@ -346,7 +347,7 @@ package biscuit
 // decoding (C07 C10): what later code relies on is established here
 
 //@ func (u *Unmarshaler) Unmarshal(serialized []byte) (res *Biscuit, err error)
-//@ serves C01 C07 C10
+//@ serves C01 C07 C10 C19
 //@ requires u != nil
 //@ modifies nothing
 //@ loop 0 modifies elems(blocks), *symbols, spare(*symbols)
@@ -357,7 +358,7 @@ package biscuit
 //@ ensures token_ok: err == nil ==> tokenOK(res)
 
 //@ func Unmarshal(serialized []byte) (res *Biscuit, err error)
-//@ serves C01 C07 C10
+//@ serves C01 C07 C10 C19
 //@ modifies nothing
 //@ ensures no_token_on_error: err != nil ==> res == nil
 //@ ensures token_ok: err == nil ==> tokenOK(res)
@@ -369,12 +370,12 @@ package biscuit
 // package are verified against it): deterministic, no side effects, and a key
 // that is either absent (length 0) or a 32-byte ed25519 key.
 //@ functype PublickKeyByIDProjection(id *uint32) (key ed25519.PublicKey, err error)
-//@ serves C10 C16
+//@ serves C10 C16 C19
 //@ modifies nothing
 //@ defines key == ksKey(self, id) && err == ksErr(self, id)
 
 //@ func (b *Biscuit) AuthorizerFor(keySource PublickKeyByIDProjection, opts []AuthorizerOption) (res Authorizer, err error)
-//@ serves C01 C10 C11 C16
+//@ serves C01 C10 C11 C16 C19
 //@ assumes keySource != nil ==> len(ksKey(keySource, b.container.RootKeyId)) == 0 || len(ksKey(keySource, b.container.RootKeyId)) == 32
 //@ requires wfToken(b)
 //@ requires forall j int :: { opts[j] } 0 <= j && j < len(opts) ==> opts[j] != nil
@@ -389,7 +390,7 @@ package biscuit
 //@ ensures accepts_under_selected_key[C01 C16]: keySource != nil && ksErr(keySource, b.container.RootKeyId) == 0 && len(ksKey(keySource, b.container.RootKeyId)) == 32 && chainOK(b.container, bview(ksKey(keySource, b.container.RootKeyId))) && proofOK(b.container) ==> err == nil
 
 //@ func (b *Biscuit) Authorizer(root ed25519.PublicKey, opts []AuthorizerOption) (res Authorizer, err error)
-//@ serves C01 C10 C11
+//@ serves C01 C10 C11 C19
 //@ requires wfToken(b) && len(root) == 32
 //@ requires forall j int :: { opts[j] } 0 <= j && j < len(opts) ==> opts[j] != nil
 //@ modifies nothing
@@ -403,7 +404,7 @@ package biscuit
 // builder-level values to datalog values and back (types.go): C07 C10 C14
 
 //@ iface (t Term) convert(symbols *datalog.SymbolTable) (res datalog.Term)
-//@ serves C07 C10 C14
+//@ serves C07 C10 C14 C19
 //@ requires symbols != nil && bTermWF(t)
 //@ modifies *symbols, spare(*symbols)
 //@ ensures wf: termWF(res)
@@ -418,7 +419,7 @@ package biscuit
 //@ ensures set: t is Set ==> res is datalog.Set && len(res.(datalog.Set)) == len(t.(Set))
 
 //@ func (a Set) convert(symbols *datalog.SymbolTable) (res datalog.Term)
-//@ serves C07 C10 C14
+//@ serves C07 C10 C14 C19
 //@ requires symbols != nil && bTermsFlat(a)
 //@ modifies *symbols, spare(*symbols)
 //@ loop 0 invariant len(datalogSet) == #i && cap(datalogSet) == len(a) && fresh(arr(datalogSet)) && off(datalogSet) == 0
@@ -427,7 +428,7 @@ package biscuit
 //@ ensures res is datalog.Set && len(res.(datalog.Set)) == len(a) && termWF(res)
 
 //@ func (p Predicate) convert(symbols *datalog.SymbolTable) (res datalog.Predicate)
-//@ serves C07 C10 C14
+//@ serves C07 C10 C14 C19
 //@ requires symbols != nil && bPredWF(p)
 //@ modifies *symbols, spare(*symbols)
 //@ loop 0 invariant len(ids) == #i && (len(ids) > 0 ==> fresh(arr(ids))) && (len(ids) == 0 ==> cap(ids) == 0) && termsWF(ids)
@@ -438,7 +439,7 @@ package biscuit
 //@ ensures table: symsGrown(*symbols, old(*symbols)) && (forall j int :: { (*symbols)[j] } 0 <= j && j < old(len(*symbols)) ==> (*symbols)[j] == old((*symbols)[j]))
 
 //@ func (f Fact) convert(symbols *datalog.SymbolTable) (res datalog.Fact)
-//@ serves C07 C10 C14
+//@ serves C07 C10 C14 C19
 //@ requires symbols != nil && bPredWF(f.Predicate)
 //@ modifies *symbols, spare(*symbols)
 //@ ensures wf: predWF(res.Predicate) && len(res.Predicate.Terms) == len(f.Predicate.IDs)
@@ -446,7 +447,7 @@ package biscuit
 //@ ensures table: symsGrown(*symbols, old(*symbols)) && (forall j int :: { (*symbols)[j] } 0 <= j && j < old(len(*symbols)) ==> (*symbols)[j] == old((*symbols)[j]))
 
 //@ iface (o Op) convert(symbols *datalog.SymbolTable) (res datalog.Op)
-//@ serves C07 C10 C14
+//@ serves C07 C10 C14 C19
 //@ requires symbols != nil && bOpWF(o)
 //@ modifies *symbols, spare(*symbols)
 //@ ensures wf: opWF(res)
@@ -476,7 +477,7 @@ package biscuit
 //@ ensures union: o is BinaryOp && o.(BinaryOp) == BinaryUnion ==> res.(datalog.BinaryOp).BinaryOpFunc is datalog.Union
 
 //@ func (e Expression) convert(symbols *datalog.SymbolTable) (res datalog.Expression)
-//@ serves C07 C10 C14
+//@ serves C07 C10 C14 C19
 //@ requires symbols != nil && bExprWF(e)
 //@ modifies *symbols, spare(*symbols)
 //@ loop 0 invariant len(expr) == len(e) && fresh(arr(expr)) && (forall k int :: { expr[k] } 0 <= k && k < #i ==> opWF(expr[k]))
@@ -485,7 +486,7 @@ package biscuit
 //@ ensures table: symsGrown(*symbols, old(*symbols)) && (forall j int :: { (*symbols)[j] } 0 <= j && j < old(len(*symbols)) ==> (*symbols)[j] == old((*symbols)[j]))
 
 //@ func (r Rule) convert(symbols *datalog.SymbolTable) (res datalog.Rule)
-//@ serves C07 C10 C14
+//@ serves C07 C10 C14 C19
 //@ requires symbols != nil && bRuleWF(r)
 //@ modifies *symbols, spare(*symbols)
 //@ loop 0 invariant len(dlBody) == len(r.Body) && fresh(arr(dlBody)) && (forall k int :: { dlBody[k] } 0 <= k && k < #i ==> predWF(dlBody[k]) && len(dlBody[k].Terms) == len(r.Body[k].IDs))
@@ -496,7 +497,7 @@ package biscuit
 //@ ensures table: symsGrown(*symbols, old(*symbols)) && (forall j int :: { (*symbols)[j] } 0 <= j && j < old(len(*symbols)) ==> (*symbols)[j] == old((*symbols)[j]))
 
 //@ func (c Check) convert(symbols *datalog.SymbolTable) (res datalog.Check)
-//@ serves C07 C10 C14
+//@ serves C07 C10 C14 C19
 //@ requires symbols != nil && bCheckWF(c)
 //@ modifies *symbols, spare(*symbols)
 //@ loop 0 invariant len(queries) == len(c.Queries) && fresh(arr(queries)) && (forall k int :: { queries[k] } 0 <= k && k < #i ==> ruleWF(queries[k]))
@@ -507,7 +508,7 @@ package biscuit
 // datalog values back to builder-level values (resolution against a symbol table)
 
 //@ func fromDatalogID(symbols *datalog.SymbolTable, id datalog.Term) (a Term, err error)
-//@ serves C07 C10
+//@ serves C07 C10 C19
 //@ requires symbols != nil && termWF(id)
 //@ modifies nothing
 //@ loop 0 invariant len(set) == #i && fresh(arr(set)) && cap(set) == len(setIDs) && (forall k int :: { set[k] } 0 <= k && k < len(set) ==> set[k] != nil && !(set[k] is Set))
@@ -522,7 +523,7 @@ package biscuit
 //@ ensures set: id is datalog.Set ==> a is Set && len(a.(Set)) == len(id.(datalog.Set))
 
 //@ func fromDatalogPredicate(symbols *datalog.SymbolTable, p datalog.Predicate) (res *Predicate, err error)
-//@ serves C07 C10
+//@ serves C07 C10 C19
 //@ requires symbols != nil && predWF(p)
 //@ modifies nothing
 //@ loop 0 invariant len(terms) == #i && fresh(arr(terms)) && cap(terms) == len(p.Terms) && bTermsWF(terms)
@@ -530,20 +531,20 @@ package biscuit
 //@ ensures name: symValid(symbols, p.Name) ==> res.Name == symStr(symbols, p.Name)
 
 //@ func fromDatalogFact(symbols *datalog.SymbolTable, f datalog.Fact) (res *Fact, err error)
-//@ serves C07 C10
+//@ serves C07 C10 C19
 //@ requires symbols != nil && predWF(f.Predicate)
 //@ modifies nothing
 //@ ensures total: err == nil && res != nil && fresh(res) && bPredWF(res.Predicate) && len(res.Predicate.IDs) == len(f.Predicate.Terms)
 //@ ensures name: symValid(symbols, f.Predicate.Name) ==> res.Predicate.Name == symStr(symbols, f.Predicate.Name)
 
 //@ func fromDatalogValueOp(symbols *datalog.SymbolTable, dlValue datalog.Value) (res Op, err error)
-//@ serves C07 C10
+//@ serves C07 C10 C19
 //@ requires symbols != nil && termWF(dlValue.ID)
 //@ modifies nothing
 //@ ensures err == nil && res is Value && bTermWF(res.(Value).Term)
 
 //@ func fromDatalogUnaryOp(symbols *datalog.SymbolTable, dlUnary datalog.UnaryOp) (res Op, err error)
-//@ serves C07 C10
+//@ serves C07 C10 C19
 //@ requires dlUnary.UnaryOpFunc != nil
 //@ modifies nothing
 //@ ensures total: err == nil && res is UnaryOp && 1 <= res.(UnaryOp) && res.(UnaryOp) <= 3
@@ -552,7 +553,7 @@ package biscuit
 //@ ensures length: dlUnary.UnaryOpFunc is datalog.Length ==> res.(UnaryOp) == UnaryLength
 
 //@ func fromDatalogBinaryOp(symbols *datalog.SymbolTable, dbBinary datalog.BinaryOp) (res Op, err error)
-//@ serves C07 C10
+//@ serves C07 C10 C19
 //@ requires dbBinary.BinaryOpFunc != nil
 //@ modifies nothing
 //@ ensures total: err == nil && res is BinaryOp && 1 <= res.(BinaryOp) && res.(BinaryOp) <= 17
@@ -575,14 +576,14 @@ package biscuit
 //@ ensures union: dbBinary.BinaryOpFunc is datalog.Union ==> res.(BinaryOp) == BinaryUnion
 
 //@ func fromDatalogExpression(symbols *datalog.SymbolTable, dlExpr datalog.Expression) (res Expression, err error)
-//@ serves C07 C10
+//@ serves C07 C10 C19
 //@ requires symbols != nil && exprWF(dlExpr)
 //@ modifies nothing
 //@ loop 0 invariant len(expr) == len(dlExpr) && fresh(arr(expr)) && (forall k int :: { expr[k] } 0 <= k && k < #i ==> bOpWF(expr[k]))
 //@ ensures total: err == nil && bExprWF(res) && len(res) == len(dlExpr)
 
 //@ func fromDatalogRule(symbols *datalog.SymbolTable, dlRule datalog.Rule) (res *Rule, err error)
-//@ serves C07 C10
+//@ serves C07 C10 C19
 //@ requires symbols != nil && ruleWF(dlRule)
 //@ modifies nothing
 //@ loop 0 invariant head != nil && bPredWF(*head) && len(head.IDs) == len(dlRule.Head.Terms)
@@ -592,7 +593,7 @@ package biscuit
 //@ ensures total: err == nil && res != nil && fresh(res) && bRuleWF(*res) && len(res.Body) == len(dlRule.Body) && len(res.Expressions) == len(dlRule.Expressions) && len(res.Head.IDs) == len(dlRule.Head.Terms)
 
 //@ func fromDatalogCheck(symbols *datalog.SymbolTable, dlCheck datalog.Check) (res *Check, err error)
-//@ serves C07 C10
+//@ serves C07 C10 C19
 //@ requires symbols != nil && checkWF(dlCheck)
 //@ modifies nothing
 //@ loop 0 invariant len(queries) == len(dlCheck.Queries) && fresh(arr(queries)) && (forall k int :: { queries[k] } 0 <= k && k < #i ==> bRuleWF(queries[k]))
@@ -602,35 +603,35 @@ package biscuit
 // authorizer (authorizer.go): C03 C04 C10 C11 C13
 
 //@ func (v *authorizer) AddFact(fact Fact)
-//@ serves C10 C13
+//@ serves C10 C13 C19
 //@ requires authWF(v) && bPredWF(fact.Predicate)
 //@ modifies *v.world.facts, spare(*v.world.facts), *v.symbols, spare(*v.symbols)
 //@ ensures authWF(v)
 //@ ensures keeps_inv: old(authInv(v)) ==> authInv(v)
 
 //@ func (v *authorizer) AddRule(rule Rule)
-//@ serves C10 C13
+//@ serves C10 C13 C19
 //@ requires authWF(v) && bRuleWF(rule)
 //@ modifies v.world.rules, spare(v.world.rules), *v.symbols, spare(*v.symbols)
 //@ ensures authWF(v)
 //@ ensures keeps_inv: old(authInv(v)) ==> authInv(v)
 
 //@ func (v *authorizer) AddCheck(check Check)
-//@ serves C10 C13
+//@ serves C10 C13 C19
 //@ requires authWF(v) && bCheckWF(check)
 //@ modifies v.checks, spare(v.checks)
 //@ ensures authWF(v) && len(v.checks) == old(len(v.checks)) + 1
 //@ ensures keeps_inv: old(authInv(v)) ==> authInv(v)
 
 //@ func (v *authorizer) AddPolicy(policy Policy)
-//@ serves C10 C13
+//@ serves C10 C13 C19
 //@ requires authWF(v) && bPolicyWF(policy)
 //@ modifies v.policies, spare(v.policies)
 //@ ensures authWF(v) && len(v.policies) == old(len(v.policies)) + 1
 //@ ensures keeps_inv: old(authInv(v)) ==> authInv(v)
 
 //@ func (v *authorizer) Reset()
-//@ serves C10 C13
+//@ serves C10 C13 C19
 //@ requires authWF(v)
 //@ modifies v.world, v.symbols, v.checks, v.policies, v.dirty
 //@ ensures clean_world[C13]: v.world != nil && fresh(v.world) && fresh(v.world.facts) && *v.world.facts == *v.baseWorld.facts && len(v.world.rules) == len(v.baseWorld.rules) && (forall j int :: { v.world.rules[j] } 0 <= j && j < len(v.world.rules) ==> v.world.rules[j] == v.baseWorld.rules[j]) && v.world.runLimits == v.baseWorld.runLimits
@@ -641,7 +642,7 @@ package biscuit
 //@ ensures keeps_inv: old(authInv(v)) ==> authInv(v)
 
 //@ func (v *authorizer) Biscuit() (res *Biscuit)
-//@ serves C10
+//@ serves C10 C19
 //@ requires v != nil
 //@ modifies nothing
 //@ ensures res == v.biscuit
@@ -794,7 +795,7 @@ package biscuit
 // read-only accessors of a token (C17 C09 C10)
 
 //@ func (b *Biscuit) RevocationIds() (res [][]byte)
-//@ serves C09 C10 C17
+//@ serves C09 C10 C17 C19
 //@ requires wfToken(b)
 //@ modifies nothing
 //@ loop 0 invariant len(result) == #i + 1 && cap(result) == len(b.blocks) + 1 && fresh(arr(result)) && off(result) == 0 && result[0] == b.container.Authority.Signature
@@ -805,20 +806,20 @@ package biscuit
 //@ ensures fresh_list: fresh(arr(res))
 
 //@ func (b *Biscuit) BlockCount() (res int)
-//@ serves C10 C17
+//@ serves C10 C17 C19
 //@ requires b != nil && b.container != nil
 //@ modifies nothing
 //@ ensures res == len(b.container.Blocks)
 
 //@ func (b *Biscuit) Checks() (res [][]datalog.Check)
-//@ serves C10
+//@ serves C10 C19
 //@ requires wfToken(b)
 //@ modifies nothing
 //@ loop 0 invariant len(result) == #i + 1 && cap(result) == len(b.blocks) + 1 && fresh(arr(result)) && off(result) == 0
 //@ ensures len(res) == len(b.blocks) + 1 && fresh(arr(res))
 
 //@ func (b *Biscuit) GetContext() (res string)
-//@ serves C10
+//@ serves C10 C19
 //@ modifies nothing
 //@ ensures b != nil && b.authority != nil ==> res == b.authority.context
 
@@ -838,7 +839,7 @@ package biscuit
 // authorizer snapshots (C18)
 
 //@ func (v *authorizer) SerializePolicies() (res []byte, err error)
-//@ serves C10 C18
+//@ serves C08 C10 C13 C18 C19
 //@ requires authInv(v)
 //@ modifies *v.symbols, spare(*v.symbols)
 //@ loop 0 modifies elems(protoFacts)
@@ -858,12 +859,12 @@ package biscuit
 //@ ensures no_bytes_on_error[C18]: err != nil ==> res == nil
 
 //@ func (v *authorizer) LoadPolicies(authorizerPolicies []byte) (err error)
-//@ serves C10 C18
+//@ serves C08 C10 C13 C18 C19
 //@ requires authInv(v)
 //@ modifies v.symbols, v.checks, v.policies, *v.world.facts, spare(*v.world.facts), v.world.rules, spare(v.world.rules)
 
 //@ func (v *authorizer) loadPoliciesV2(pbPolicies *pb.AuthorizerPolicies) (err error)
-//@ serves C10 C18
+//@ serves C08 C10 C13 C18 C19
 //@ requires authInv(v) && pbPoliciesWF(pbPolicies)
 //@ modifies v.symbols, v.checks, v.policies, *v.world.facts, spare(*v.world.facts), v.world.rules, spare(v.world.rules)
 //@ loop 0 modifies *v.world.facts, spare(*v.world.facts)
@@ -894,7 +895,7 @@ package biscuit
 // builders (builder.go): C07 C08 C10 C16 C20
 
 //@ iface (o builderOption) applyToBuilder(b *builderOptions)
-//@ serves C10 C16 C20
+//@ serves C10 C16 C19 C20
 //@ requires b != nil && (o is symbolsOption ==> o.(symbolsOption).SymbolTable != nil)
 //@ modifies b.symbolsStart, b.symbols, b.rng, b.rootKeyID
 //@ ensures symbols: (o is symbolsOption ==> b.symbols != nil && fresh(b.symbols) && b.symbolsStart == len(*b.symbols)) && (!(o is symbolsOption) ==> b.symbols == old(b.symbols) && b.symbolsStart == old(b.symbolsStart))
@@ -902,7 +903,7 @@ package biscuit
 //@ ensures rng[C20]: (o is rngOption && o.(rngOption).Reader != nil ==> b.rng != nil) && (!(o is rngOption) ==> b.rng == old(b.rng))
 
 //@ func NewBuilder(root ed25519.PrivateKey, opts []builderOption) (res Builder)
-//@ serves C10 C16 C20
+//@ serves C10 C16 C19 C20
 //@ requires len(root) == 64
 //@ requires forall j int :: { opts[j] } 0 <= j && j < len(opts) ==> opts[j] != nil && (opts[j] is symbolsOption ==> opts[j].(symbolsOption).SymbolTable != nil)
 //@ modifies nothing
@@ -914,31 +915,31 @@ package biscuit
 //@ ensures keyid_last[C16]: len(opts) > 0 && opts[len(opts)-1] is rootKeyIDOption ==> res.(*builderOptions).rootKeyID != nil && *res.(*builderOptions).rootKeyID == opts[len(opts)-1].(rootKeyIDOption)
 
 //@ func (b *builderOptions) AddAuthorityFact(fact Fact) (err error)
-//@ serves C07 C10
+//@ serves C07 C10 C19
 //@ requires tbWF(b) && bPredWF(fact.Predicate)
 //@ modifies *b.facts, spare(*b.facts), *b.symbols, spare(*b.symbols)
 //@ ensures tbWF(b)
 
 //@ func (b *builderOptions) AddAuthorityRule(rule Rule) (err error)
-//@ serves C07 C10
+//@ serves C07 C10 C19
 //@ requires tbWF(b) && bRuleWF(rule)
 //@ modifies b.rules, spare(b.rules), *b.symbols, spare(*b.symbols)
 //@ ensures tbWF(b) && err == nil
 
 //@ func (b *builderOptions) AddAuthorityCheck(check Check) (err error)
-//@ serves C07 C10
+//@ serves C07 C10 C19
 //@ requires tbWF(b) && bCheckWF(check)
 //@ modifies b.checks, spare(b.checks), *b.symbols, spare(*b.symbols)
 //@ ensures tbWF(b) && err == nil
 
 //@ func (b *builderOptions) SetContext(context string)
-//@ serves C10
+//@ serves C10 C19
 //@ requires b != nil
 //@ modifies b.context
 //@ ensures b.context == context
 
 //@ func (b *builderOptions) Build() (res *Biscuit, err error)
-//@ serves C07 C10 C16 C20
+//@ serves C07 C10 C16 C19 C20
 //@ requires tbWF(b)
 //@ modifies *b.symbols
 //@ ensures no_token_on_error[C20]: err != nil ==> res == nil
@@ -947,7 +948,7 @@ package biscuit
 //@ ensures content[C07]: err == nil ==> res.authority.facts == b.facts && res.authority.rules == b.rules && res.authority.checks == b.checks && res.authority.context == b.context && res.authority.version == 3
 
 //@ func New(rng io.Reader, root ed25519.PrivateKey, baseSymbols *datalog.SymbolTable, authority *Block) (res *Biscuit, err error)
-//@ serves C10 C20
+//@ serves C10 C19 C20
 //@ requires len(root) == 64 && baseSymbols != nil && blockWF(authority)
 //@ modifies nothing
 //@ ensures entropy_failure_is_reported[C20]: rng != nil && !entropyOK(rng) ==> err != nil
@@ -962,37 +963,37 @@ package biscuit
 //@ ensures starts_after_token_symbols[C07]: res.(*blockBuilder).symbolsStart == len(*b.symbols)
 
 //@ func NewBlockBuilder(baseSymbols *datalog.SymbolTable) (res BlockBuilder)
-//@ serves C08 C10
+//@ serves C08 C10 C19
 //@ requires baseSymbols != nil
 //@ modifies nothing
 //@ ensures res is *blockBuilder && bbWF(res.(*blockBuilder)) && fresh(res.(*blockBuilder)) && res.(*blockBuilder).symbols == baseSymbols && res.(*blockBuilder).symbolsStart == len(*baseSymbols) && fresh(res.(*blockBuilder).facts)
 
 //@ func (b *blockBuilder) AddFact(fact Fact) (err error)
-//@ serves C07 C08 C10
+//@ serves C07 C08 C10 C19
 //@ requires bbWF(b) && bPredWF(fact.Predicate)
 //@ modifies *b.facts, spare(*b.facts), *b.symbols, spare(*b.symbols)
 //@ ensures bbWF(b)
 
 //@ func (b *blockBuilder) AddRule(rule Rule) (err error)
-//@ serves C07 C08 C10
+//@ serves C07 C08 C10 C19
 //@ requires bbWF(b) && bRuleWF(rule)
 //@ modifies b.rules, spare(b.rules), *b.symbols, spare(*b.symbols)
 //@ ensures bbWF(b) && err == nil
 
 //@ func (b *blockBuilder) AddCheck(check Check) (err error)
-//@ serves C07 C08 C10
+//@ serves C07 C08 C10 C19
 //@ requires bbWF(b) && bCheckWF(check)
 //@ modifies b.checks, spare(b.checks), *b.symbols, spare(*b.symbols)
 //@ ensures bbWF(b) && err == nil
 
 //@ func (b *blockBuilder) SetContext(context string)
-//@ serves C10
+//@ serves C10 C19
 //@ requires b != nil
 //@ modifies b.context
 //@ ensures b.context == context
 
 //@ func (b *blockBuilder) Build() (res *Block)
-//@ serves C07 C08 C10
+//@ serves C07 C08 C10 C19
 //@ requires bbWF(b)
 //@ modifies b.symbols, *b.symbols
 //@ ensures fresh_block[C08]: res != nil && fresh(res) && fresh(res.symbols) && fresh(arr(*res.symbols)) && fresh(res.facts) && (len(*res.facts) > 0 ==> fresh(arr(*res.facts))) && (len(res.rules) > 0 ==> fresh(arr(res.rules))) && (len(res.checks) > 0 ==> fresh(arr(res.checks)))
@@ -1037,34 +1038,34 @@ package biscuit
 // wrappers and text forms of builder-level values (C10)
 
 //@ func (v *authorizer) PrintWorld() (res string)
-//@ serves C10
+//@ serves C10 C19
 //@ requires authWF(v)
 //@ modifies nothing
 
 //@ iface (t Term) String() (res string)
-//@ serves C10
+//@ serves C10 C19
 //@ requires bTermWF(t)
 //@ modifies nothing
 
 //@ func (a Set) String() (res string)
-//@ serves C10
+//@ serves C10 C19
 //@ requires bTermsFlat(a)
 //@ modifies nothing
 //@ loop 0 invariant len(elts) == #i && cap(elts) == len(a) && fresh(arr(elts)) && off(elts) == 0
 
 //@ func (p Predicate) String() (res string)
-//@ serves C10
+//@ serves C10 C19
 //@ requires bPredWF(p)
 //@ modifies nothing
 //@ loop 0 invariant len(terms) == #i && cap(terms) == len(p.IDs) && fresh(arr(terms)) && off(terms) == 0
 
 //@ func (f Fact) String() (res string)
-//@ serves C10
+//@ serves C10 C19
 //@ requires bPredWF(f.Predicate)
 //@ modifies nothing
 
 //@ func (fs FactSet) String() (res string)
-//@ serves C10
+//@ serves C10 C19
 //@ requires bFactsWF(fs)
 //@ modifies nothing
 //@ loop 0 invariant len(out) == #i && cap(out) == len(fs) && fresh(arr(out)) && off(out) == 0
